@@ -17,6 +17,11 @@ impl RangeWitness {
         &&& forall|j: int| 0 <= j < self.openings@.len() ==> (#[trigger] self.openings@[j]).r@.len() == self.extension_degree as usize
     }
 }
+// vacuity guards behind the preconditions of prove_with_rng / commit / verify (each must FAIL)
+proof fn vx_canary_req_pedersen_wf(pc: PedersenGens<P>) requires pc.wf() ensures false {}
+proof fn vx_canary_req_witness_wf(w: RangeWitness) requires w.wf() ensures false {}
+proof fn vx_canary_req_prove(s: RangeStatement<P>, w: RangeWitness) requires s.wf(), w.wf() ensures false {}
+proof fn vx_canary_req_verify(s: Seq<RangeStatement<P>>, t: Seq<Transcript>) requires all_wf(s), t.len() == s.len(), s.len() >= 1 ensures false {}
 pub open spec fn alpha_off(a0: Scalar, rs: Seq<Seq<Scalar>>, zsq: Scalar, yp: Scalar, k: int, cnt: nat) -> Scalar
     decreases cnt
 {
